@@ -86,16 +86,17 @@ class C12(PropBase):
             rep.count(f"delete_after={da}")
         rep.sample({"ops_head": ops[:12], "delete_after": da})
         # a frame after expiry starts a fresh row
-        for u in (False, True):
+        for (u, show, upd) in [(False, False, -1), (True, False, -1), (False, True, -1), (True, True, 0), (False, False, 100000),
+                               (True, False, 7), (False, True, 3), (True, False, 2 ** 62)]:
             a = 0x4CA123
             ident = F.df17(5, a, F.me_ident(4, 3, F.callsign_codes("OLDCALL")))
             sq = F.df5(0, 0, 0, F.id13_of_squawk(7, 1, 2, 3), a)
             other = [gen.rand_frame(rng, "df11", 0x4CA200 + i) for i in range(13)]
-            ops = ["reset", gen.cfg_op(use_update=u, delete_after=5), "case 0"] + gen.seg([ident, sq]) + ["dump", "adv 5500", "case 1"] \
+            ops = ["reset", gen.cfg_op(use_update=u, delete_after=5, show=show, update=upd), "case 0"] + gen.seg([ident, sq]) + ["dump", "adv 5500", "case 1"] \
                 + gen.seg(other) + ["dump", "case 2"] + gen.seg([F.df11(5, a, 0)]) + ["dump"]
             impl, _, model = run.execute(ops, model=driver_ok)
             rep.evaluations += 3; rep.traces += 1
-            self.corr(rep, impl, model, {"fresh_after_expiry": True, "use_update": u}, ops)
+            self.corr(rep, impl, model, {"fresh_after_expiry": True, "use_update": u, "display_on": show, "update": upd}, ops)
             ci = core.split_cases(impl)
             r0, r1, r2 = (gen.parse_dump(ci.get(str(i), [])) for i in range(3))
             if a not in r0 or a in r1 or a not in r2:
@@ -105,6 +106,6 @@ class C12(PropBase):
             if r2[a].get("ais") != "-" or r2[a].get("squawk") != "-":
                 self.fail(rep, f"row re-created after expiry remembers ais={r2[a].get('ais')} squawk={r2[a].get('squawk')}", {"ops": ops})
                 return
-            rep.nontriv(("fresh", u))
+            rep.nontriv(("fresh", u, show, upd))
 
 PROP = C12()
